@@ -21,7 +21,8 @@ c.loop(0, ["total_msg + self.socket.remaining == old(self.socket.remaining)",
            "bytes_read == len(total_msg)", "bytes_read <= total_bytes_to_be_read"],
        modifies=["self.socket.remaining"], decreases="total_bytes_to_be_read - bytes_read")
 c.raises('RequestLengthMismatch', fields={'expected': 'nat', 'received': 'nat'},
-         ensures="raised.expected == total_bytes_to_be_read and raised.received < total_bytes_to_be_read")
+         ensures="raised.expected == total_bytes_to_be_read and raised.received < total_bytes_to_be_read",
+         emits=[('recv', 'none')])      # justified by this contract's own trace obligation below
 c.ensures("result + self.socket.remaining == old(self.socket.remaining)", name="prefix-of-stream")
 c.ensures("len(result) == total_bytes_to_be_read", name="exact-length")
 c.trace("length-mismatch-only-when-the-stream-ends-early", _early_end_only)
@@ -36,6 +37,11 @@ c.args(self=PROTO)
 c.raises(('RequestLengthMismatch', 'EOFError'))
 c.ensures("result.buffer + self.socket.remaining == old(self.socket.remaining)", name="message-is-prefix")
 c.ensures("len(result.buffer) == 8 + be_int(result.buffer[4:8])", name="length-from-header")
+c.trace("error-only-when-the-stream-ends-early", _early_end_only)
+c.native_check(lambda pre, post, raised: True if raised is None
+               or len(pre['self'].socket.remaining) < 8
+               or len(pre['self'].socket.remaining) < 8 + int.from_bytes(pre['self'].socket.remaining[4:8], 'big')
+               else "error although the stream holds the whole message")
 c.modifies("self.socket.remaining")
 c.returns(('obj', 'kmip.core.utils.BytearrayStream', {'buffer': 'bytes'}))
 
